@@ -168,76 +168,11 @@ func c12Worlds() []c12World {
 func runC12(r *mc.Run) {
 	// (a) monotonicity and fetch discipline
 	worlds := c12Worlds()
-	type combo struct{ gc, cr bool }
-	combos := []combo{{false, false}, {true, false}, {true, true}, {false, true}}
-	r.SerialOnly = strings.Contains(os.Getenv("VERIF_OVERLAY"), "time") // the virtual clock is process-global
-	done := r.Parallel(len(worlds), func(i int) {
-		w := worlds[i]
-		var acc [4]bool
-		var logs [4][]string
-		for ci, c := range combos {
-			id := fmt.Sprintf("options/%s/gc=%v,cr=%v", w.name, c.gc, c.cr)
-			g := w.getter.Clone()
-			now := w.now
-			err := world.SafeVerifyRaw(w.raw, &verify.Options{GetCollateral: c.gc, CheckRevocations: c.cr, Getter: g, Now: &now, TrustedRoots: w.roots})
-			acc[ci] = err == nil
-			logs[ci] = g.Log
-			if !r.Want(id) {
-				continue
-			}
-			out := verdict(err)
-			detail := map[string]any{"urls": g.Log, "error": errStr(err)}
-			if !c.gc && len(g.Log) != 0 {
-				r.Violate("fetch-without-collateral", id, fmt.Sprintf("GetCollateral is off but %d fetches were made", len(g.Log)), detail)
-				out = "fetched!"
-			}
-			if c.cr && !c.gc && err == nil {
-				r.Violate("revocation-without-collateral-accepted", id, "CheckRevocations without GetCollateral was accepted", detail)
-				out = "accept!"
-			}
-			for _, u := range g.Log {
-				isCrl := strings.Contains(u, "pckcrl") || u == world.RootCRLURL || strings.HasSuffix(u, ".der") || strings.HasSuffix(u, ".crl")
-				switch {
-				case isCrl && !c.cr:
-					r.Violate("crl-fetched-without-revocation-checking", id, "a CRL endpoint was contacted although CheckRevocations is off: "+u, detail)
-					out = "crl-fetch!"
-				case strings.Contains(u, "/tcb?fmspc="):
-					if x := u[strings.Index(u, "fmspc=")+6:]; !strings.EqualFold(x, w.fmspc) {
-						r.Violate("tcbinfo-request-wrong-fmspc", id, "TCB Info requested for FMSPC "+x+", the quote's PCK certificate says "+w.fmspc, detail)
-						out = "wrong-fmspc"
-					}
-				case strings.Contains(u, "pckcrl?ca="):
-					y := u[strings.Index(u, "ca=")+3:]
-					if k := strings.Index(y, "&"); k >= 0 {
-						y = y[:k]
-					}
-					if y != w.ca {
-						r.Violate("pckcrl-request-wrong-ca", id, "PCK CRL requested for CA "+y+", the PCK certificate was issued by the "+w.ca+" CA", detail)
-						out = "wrong-ca"
-					}
-				}
-			}
-			r.Eval(id, true, fmt.Sprintf("gc=%v,cr=%v:%s", c.gc, c.cr, out))
-		}
-		id := "monotone/" + w.name
-		if r.Want(id) {
-			out := "monotone"
-			if acc[2] && !acc[1] {
-				r.Violate("more-checking-accepts-more:L2>L1", id, "accepted with collateral+revocation checking but rejected with collateral checking alone", nil)
-				out = "L2>L1"
-			}
-			if acc[1] && !acc[0] {
-				r.Violate("more-checking-accepts-more:L1>L0", id, "accepted with collateral checking but rejected with signature and chain checking alone", nil)
-				out = "L1>L0"
-			}
-			if strings.HasPrefix(w.name, "honest/fmspc") && !(acc[0] && acc[1] && acc[2]) {
-				r.Violate("honest-world-rejected", id, fmt.Sprintf("an honest world is not accepted at every level: %v", acc[:3]), nil)
-				out = "honest-rejected"
-			}
-			r.Eval(id, true, fmt.Sprintf("%s:%v", out, acc))
-		}
-	})
+	// part (a) always passes an explicit time set, so the (process-global) virtual clock is not involved
+	done := r.Parallel(len(worlds), func(i int) { c12EvalWorld(r, worlds[i]) })
 	r.SectionDone(mc.Section{Name: "option-combinations", Evaluations: int64(done) * 5, Exhaustive: done == len(worlds)})
+
+	c12Composed(r)
 
 	// (b) histories through one shared options value on a virtual clock
 	if !strings.Contains(os.Getenv("VERIF_OVERLAY"), "time") {
@@ -464,4 +399,255 @@ func c12StateKey(o *verify.Options) string {
 	}
 	walk(reflect.ValueOf(o).Elem(), 0)
 	return fmt.Sprintf("%016x", h.Sum64())
+}
+
+// c12EvalWorld verifies one world under all four option combinations and applies the oracles of part (a).
+func c12EvalWorld(r *mc.Run, w c12World) {
+	type combo struct{ gc, cr bool }
+	combos := []combo{{false, false}, {true, false}, {true, true}, {false, true}}
+	var acc [4]bool
+	var logs [4][]string
+	for ci, c := range combos {
+		id := fmt.Sprintf("options/%s/gc=%v,cr=%v", w.name, c.gc, c.cr)
+		g := w.getter.Clone()
+		now := w.now
+		err := world.SafeVerifyRaw(w.raw, &verify.Options{GetCollateral: c.gc, CheckRevocations: c.cr, Getter: g, Now: &now, TrustedRoots: w.roots})
+		acc[ci] = err == nil
+		logs[ci] = g.Log
+		if !r.Want(id) {
+			continue
+		}
+		out := verdict(err)
+		detail := map[string]any{"urls": g.Log, "error": errStr(err)}
+		if !c.gc && len(g.Log) != 0 {
+			r.Violate("fetch-without-collateral", id, fmt.Sprintf("GetCollateral is off but %d fetches were made", len(g.Log)), detail)
+			out = "fetched!"
+		}
+		if c.cr && !c.gc && err == nil {
+			r.Violate("revocation-without-collateral-accepted", id, "CheckRevocations without GetCollateral was accepted", detail)
+			out = "accept!"
+		}
+		for _, u := range g.Log {
+			isCrl := strings.Contains(u, "pckcrl") || u == world.RootCRLURL || strings.HasSuffix(u, ".der") || strings.HasSuffix(u, ".crl")
+			switch {
+			case isCrl && !c.cr:
+				r.Violate("crl-fetched-without-revocation-checking", id, "a CRL endpoint was contacted although CheckRevocations is off: "+u, detail)
+				out = "crl-fetch!"
+			case strings.Contains(u, "/tcb?fmspc="):
+				if x := u[strings.Index(u, "fmspc=")+6:]; !strings.EqualFold(x, w.fmspc) {
+					r.Violate("tcbinfo-request-wrong-fmspc", id, "TCB Info requested for FMSPC "+x+", the quote's PCK certificate says "+w.fmspc, detail)
+					out = "wrong-fmspc"
+				}
+			case strings.Contains(u, "pckcrl?ca="):
+				y := u[strings.Index(u, "ca=")+3:]
+				if k := strings.Index(y, "&"); k >= 0 {
+					y = y[:k]
+				}
+				if y != w.ca {
+					r.Violate("pckcrl-request-wrong-ca", id, "PCK CRL requested for CA "+y+", the PCK certificate was issued by the "+w.ca+" CA", detail)
+					out = "wrong-ca"
+				}
+			}
+		}
+		r.Eval(id, true, fmt.Sprintf("gc=%v,cr=%v:%s", c.gc, c.cr, out))
+	}
+	id := "monotone/" + w.name
+	if r.Want(id) {
+		out := "monotone"
+		if acc[2] && !acc[1] {
+			r.Violate("more-checking-accepts-more:L2>L1", id, "accepted with collateral+revocation checking but rejected with collateral checking alone", nil)
+			out = "L2>L1"
+		}
+		if acc[1] && !acc[0] {
+			r.Violate("more-checking-accepts-more:L1>L0", id, "accepted with collateral checking but rejected with signature and chain checking alone", nil)
+			out = "L1>L0"
+		}
+		if (strings.HasPrefix(w.name, "honest/fmspc") || w.name == "composed/default" || (strings.HasPrefix(w.name, "composed/fmspc=") && !strings.Contains(w.name, ","))) && !(acc[0] && acc[1] && acc[2]) {
+			r.Violate("honest-world-rejected", id, fmt.Sprintf("an honest world is not accepted at every level: %v", acc[:3]), nil)
+			out = "honest-rejected"
+		}
+		r.Eval(id, true, fmt.Sprintf("%s:%v", out, acc))
+	}
+}
+
+// c12Composed walks, with Engine A, all worlds with at most two faults drawn from independent menus
+// (quote, TCB Info, QE Identity, PCK CRL, Root CA CRL, verification times) over three FMSPC values, and
+// evaluates part (a)'s oracles on each.
+func c12Composed(r *mc.Run) {
+	T, F := world.CachedPKI("T"), world.CachedPKI("F")
+	fmspcs := [][]byte{{0x50, 0x80, 0x6f, 0, 0, 0}, {0xde, 0xad, 0xbe, 0xef, 0x00, 0x01}, {0, 0, 0, 0, 0, 9}}
+	leaves := make([]*world.PKI, len(fmspcs))
+	for i, f := range fmspcs {
+		p := world.DefaultPlatform()
+		p.FMSPC = f
+		leaves[i] = T.WithLeaf(p)
+	}
+	quoteFaults := []string{"body-altered", "qe-foreign-signer", "hash-binding", "attkey-zero", "look-alike-intermediate", "look-alike-root", "foreign-pool", "body-sig-zero"}
+	tcbFaults := []string{"revoked", "outofdate", "fmspc-mismatch", "expired", "foreign-signer", "endpoint-down", "empty-object", "wrong-id", "no-levels", "header-missing"}
+	qeFaults := []string{"revoked", "mrsigner-mismatch", "expired", "foreign-signer", "endpoint-down", "wrong-version", "header-two-values"}
+	pckFaults := []string{"leaf-revoked", "endpoint-down", "signed-by-root", "expired", "garbage", "foreign-crl"}
+	rootFaults := []string{"intermediate-revoked", "tcb-signer-revoked", "endpoint-down", "signed-by-intermediate", "expired", "garbage"}
+	timeFaults := []string{"all-late", "pckchain-late", "tcbinfo-late", "qeidentity-late", "pckcrl-late", "rootcrl-late", "all-early"}
+	r.Explore("option-combinations/composed", 2, func(c *mc.Ctx) {
+		fi := c.Free("fmspc", len(fmspcs))
+		qf := c.Choose("quote", len(quoteFaults)+1)
+		tf := c.Choose("tcbinfo", len(tcbFaults)+1)
+		qef := c.Choose("qeidentity", len(qeFaults)+1)
+		pf := c.Choose("pckcrl", len(pckFaults)+1)
+		rf := c.Choose("rootcrl", len(rootFaults)+1)
+		tm := c.Choose("times", len(timeFaults)+1)
+		name := "composed/" + c.ID()
+		w := world.Honest("T")
+		w.Plat.FMSPC = fmspcs[fi]
+		w.PKI = leaves[fi]
+		w.Spec.PKI = w.PKI
+		w.Parts = w.Spec.Parts()
+		w.TcbInfo = world.DefaultTcbInfo(w.Plat, w.Parts.Body[0:16])
+		tcbSigner, qeSigner := T.TcbKey, T.TcbKey
+		if tf > 0 {
+			switch tcbFaults[tf-1] {
+			case "revoked":
+				w.TcbInfo.TcbLevels[0].TcbStatus = "Revoked"
+			case "outofdate":
+				w.TcbInfo.TcbLevels[0].TcbStatus = "OutOfDate"
+			case "fmspc-mismatch":
+				w.TcbInfo.Fmspc = "010203040506"
+			case "expired":
+				w.TcbInfo.NextUpdate = world.TimeStr(world.T0.AddDate(0, 0, -1))
+			case "foreign-signer":
+				tcbSigner = F.TcbKey
+			case "wrong-id":
+				w.TcbInfo.ID = "SGX"
+			case "no-levels":
+				w.TcbInfo.TcbLevels = []world.Level{}
+			}
+		}
+		if qef > 0 {
+			switch qeFaults[qef-1] {
+			case "revoked":
+				w.QeID.TcbLevels[0].TcbStatus = "Revoked"
+			case "mrsigner-mismatch":
+				w.QeID.Mrsigner = strings.Repeat("cd", 32)
+			case "expired":
+				w.QeID.NextUpdate = world.TimeStr(world.T0.AddDate(0, 0, -1))
+			case "foreign-signer":
+				qeSigner = F.TcbKey
+			case "wrong-version":
+				w.QeID.Version = 3
+			}
+		}
+		pckSpec := world.CRLSpec{Issuer: T.Inter, Signer: T.InterKey}
+		rootSpec := world.CRLSpec{Issuer: T.Root, Signer: T.RootKey}
+		if pf > 0 {
+			switch pckFaults[pf-1] {
+			case "leaf-revoked":
+				pckSpec.Revoked = []*big.Int{w.PKI.Leaf.SerialNumber}
+			case "signed-by-root":
+				pckSpec = world.CRLSpec{Issuer: T.Root, Signer: T.RootKey}
+			case "expired":
+				pckSpec.NextUpdate = world.T0.AddDate(0, 0, -1)
+			case "foreign-crl":
+				pckSpec = world.CRLSpec{Issuer: F.Inter, Signer: F.InterKey}
+			}
+		}
+		if rf > 0 {
+			switch rootFaults[rf-1] {
+			case "intermediate-revoked":
+				rootSpec.Revoked = []*big.Int{T.Inter.SerialNumber}
+			case "tcb-signer-revoked":
+				rootSpec.Revoked = []*big.Int{T.Tcb.SerialNumber}
+			case "signed-by-intermediate":
+				rootSpec = world.CRLSpec{Issuer: T.Inter, Signer: T.InterKey}
+			case "expired":
+				rootSpec.NextUpdate = world.T0.AddDate(0, 0, -1)
+			}
+		}
+		w.PckCrl, w.RootCrl = world.MakeCRL(pckSpec), world.MakeCRL(rootSpec)
+		w.Finish()
+		w.TcbBody = world.SignedBody("tcbInfo", w.TcbRaw, tcbSigner)
+		w.QeBody = world.SignedBody("enclaveIdentity", w.QeRaw, qeSigner)
+		w.BuildGetter()
+		tcbURL := world.URLTcbInfo(hexs(w.Plat.FMSPC))
+		down := world.Response{Err: errors.New("503")}
+		if tf > 0 {
+			switch tcbFaults[tf-1] {
+			case "endpoint-down":
+				w.Getter.Responses[tcbURL] = down
+			case "empty-object":
+				w.Getter.Responses[tcbURL] = world.Response{Header: w.TcbHdr, Body: []byte("{}")}
+			case "header-missing":
+				w.Getter.Responses[tcbURL] = world.Response{Body: w.TcbBody}
+			}
+		}
+		if qef > 0 {
+			switch qeFaults[qef-1] {
+			case "endpoint-down":
+				w.Getter.Responses[world.URLQeIdentity] = down
+			case "header-two-values":
+				h := w.QeHdr[world.HdrQeIdentity][0]
+				w.Getter.Responses[world.URLQeIdentity] = world.Response{Header: map[string][]string{world.HdrQeIdentity: {h, h}}, Body: w.QeBody}
+			}
+		}
+		if pf > 0 {
+			switch pckFaults[pf-1] {
+			case "endpoint-down":
+				w.Getter.Responses[world.URLPckCrl("platform")] = down
+			case "garbage":
+				w.Getter.Responses[world.URLPckCrl("platform")] = world.Response{Header: w.PckHdr, Body: []byte("garbage")}
+			}
+		}
+		if rf > 0 {
+			switch rootFaults[rf-1] {
+			case "endpoint-down":
+				w.Getter.Responses[world.RootCRLURL] = down
+			case "garbage":
+				w.Getter.Responses[world.RootCRLURL] = world.Response{Body: []byte("garbage")}
+			}
+		}
+		p := w.Parts.Clone()
+		roots := w.Roots
+		if qf > 0 {
+			switch quoteFaults[qf-1] {
+			case "body-altered":
+				p.Body[200] ^= 1
+			case "qe-foreign-signer":
+				p.SignQE(world.NewKey("foreign"))
+			case "hash-binding":
+				p.QEReport[330] ^= 1
+				p.SignQE(w.PKI.LeafKey)
+			case "attkey-zero":
+				p.AttKey = make([]byte, 64)
+			case "look-alike-intermediate":
+				p.Chain = world.PEM(w.PKI.Leaf, F.Inter, T.Root)
+			case "look-alike-root":
+				p.Chain = world.PEM(w.PKI.Leaf, T.Inter, F.Root)
+			case "foreign-pool":
+				roots = world.Pool(F.Root)
+			case "body-sig-zero":
+				p.Sig = make([]byte, 64)
+			}
+		}
+		raw, _ := p.Bytes()
+		now := w.Now
+		if tm > 0 {
+			late, early := world.T0.AddDate(30, 0, 0), world.T0.AddDate(-30, 0, 0)
+			switch timeFaults[tm-1] {
+			case "all-late":
+				now = world.TimeSetAt(late)
+			case "all-early":
+				now = world.TimeSetAt(early)
+			case "pckchain-late":
+				now.PckCertChain = late
+			case "tcbinfo-late":
+				now.TcbInfo = late
+			case "qeidentity-late":
+				now.QeIdentity = late
+			case "pckcrl-late":
+				now.PckCrl = late
+			case "rootcrl-late":
+				now.RootCaCrl = late
+			}
+		}
+		c12EvalWorld(r, c12World{name, raw, w.Getter, roots, now, hexs(w.Plat.FMSPC), "platform"})
+	})
 }
